@@ -480,6 +480,8 @@ pub struct Undecodable;
 pub struct FrameCase {
     pub ops: Vec<(SetOp, usize)>,
     pub noise: u64,
+    /// further entries loaded in bulk (0 = none): replies of 70 KB - 1 MB, i.e. beyond any window a checksum might be limited to
+    pub bulk: usize,
 }
 
 impl Prop for Undecodable {
@@ -502,13 +504,20 @@ impl Prop for Undecodable {
     }
 
     fn gen(&self, src: &mut Src) -> FrameCase {
-        FrameCase { ops: gen_ops(src), noise: src.word() }
+        let ops = gen_ops(src);
+        let noise = src.word();
+        let bulk = if src.chance(1, 8) { *src.pick(&[3_000usize, 4_200, 9_000, 40_000]) } else { 0 };
+        FrameCase { ops, noise, bulk }
     }
 
     fn run(&self, case: &FrameCase) -> Outcome {
         let mut set = OrSWotSet::<2>::default();
         for (op, s) in &case.ops {
             apply(&mut set, *s, op);
+        }
+        for i in 0..case.bulk {
+            let stamp = Stamp { secs: 80_000_000 + (i as u64 / 60_000), frac: 0, counter: (i % 60_000) as u16, node: 20 + (i % 5) as u8 };
+            apply(&mut set, i % 2, &SetOp { key: 10_000 + i as u64, stamp, delete: i % 7 == 0 });
         }
         let bytes = rkyv::to_bytes::<_, 4096>(&set).expect("serialise").into_vec();
         let ts = Stamp { secs: 70_000_000, frac: 0, counter: 1, node: 1 }.hlc();
@@ -532,12 +541,18 @@ impl Prop for Undecodable {
         let flips: Vec<usize> = if n <= 2048 {
             (0..bits).collect()
         } else {
-            (0..1500)
-                .map(|_| {
-                    x = crate::core::splitmix64(x);
-                    (x % bits as u64) as usize
-                })
-                .collect()
+            // sampled; the first and last 64 bits and the bits around every 64 KiB boundary are always among them
+            let mut v: Vec<usize> = (0..64).chain(bits - 64..bits).collect();
+            let mut boundary = 65_536 * 8;
+            while boundary + 8 < bits {
+                v.extend([boundary - 1, boundary, bits - boundary, bits - boundary - 1]);
+                boundary += 65_536 * 8;
+            }
+            v.extend((0..1500).map(|_| {
+                x = crate::core::splitmix64(x);
+                (x % bits as u64) as usize
+            }));
+            v
         };
         for bit in flips {
             let mut f = frame.to_vec();
@@ -549,7 +564,18 @@ impl Prop for Undecodable {
             );
         }
         let root = std::mem::size_of::<rkyv::Archived<KeyspaceOrSwotSet>>();
-        for len in 0..n {
+        // every truncation for frames up to 8 KiB; for larger ones every length below root + trailer + 64 and 300 sampled lengths
+        let lens: Vec<usize> = if n <= 8_192 {
+            (0..n).collect()
+        } else {
+            let mut v: Vec<usize> = (0..(root + 4 + 64).min(n)).collect();
+            v.extend((0..300).map(|_| {
+                x = crate::core::splitmix64(x);
+                (x % n as u64) as usize
+            }));
+            v
+        };
+        for len in lens {
             let f = &frame[..len];
             let trailer_ok = len >= 4 && crc32fast::hash(&f[..len - 4]).to_le_bytes() == f[len - 4..];
             if len < root + 4 || !trailer_ok {
@@ -561,18 +587,23 @@ impl Prop for Undecodable {
             }
         }
         let v = view(&set);
-        Ok(Pass { nontrivial: !v.dead.is_empty() && !v.live.is_empty(), labels: vec![] })
+        let mut labels = vec![];
+        if n > 65_536 {
+            labels.push("reply>64KiB");
+        }
+        Ok(Pass { nontrivial: !v.dead.is_empty() && !v.live.is_empty(), labels })
     }
 
     fn describe(&self, case: &FrameCase) -> Value {
-        json!(case.ops.iter().map(|(o, _)| o.json()).collect::<Vec<_>>())
+        json!({"ops": case.ops.iter().map(|(o, _)| o.json()).collect::<Vec<_>>(), "further_entries_loaded_in_bulk": case.bulk})
     }
 
     fn rule(&self) -> &'static str {
         "a get_state reply frame (KeyspaceOrSwotSet wrapping the rkyv bytes of a generated set exactly as the actor \
          and service produce them): the intact frame decodes to an observably identical set; every single-bit flip \
-         (all bits up to 2 KiB, 1500 sampled beyond) and every truncation is refused by DataView::using, so no state \
-         is produced from it; non-trivial = the set has live ids and tombstones"
+         (all bits up to 2 KiB; beyond that 1500 sampled ones plus the first and last 64 bits and the bits around every 64 KiB boundary) and every \
+         truncation (sampled above 8 KiB) is refused by DataView::using, so no state is produced from it; one case in 8 loads 3000-40000 further \
+         entries, i.e. replies of 70 KB - 1 MB; non-trivial = the set has live ids and tombstones"
     }
 }
 
